@@ -547,6 +547,22 @@ func (s *rscenario) finish(base int, t0 time.Time) (string, string) {
 	sort.Ints(pending)
 	leak, conns := "-", "-"
 	if closeState == "ret" {
+		// a second Close has nothing left to do: it returns (no panic, no wait, nothing sent)
+		again := make(chan struct{})
+		go func() {
+			if s.r != nil {
+				s.r.Close()
+			} else {
+				s.cg.Close()
+			}
+			close(again)
+		}()
+		select {
+		case <-again:
+		case <-time.After(watchdog()):
+			noteStuck()
+			s.rec.add("to/0")
+		}
 		// quiet period: anything sent after Close returned would be journalled now
 		time.Sleep(60 * time.Millisecond)
 		n := settle(base, censusBound())
